@@ -412,6 +412,11 @@ func preparedSingleFrame(c *Ctx, rule string) {
 			if callsStatic(ev, nw) {
 				ok, why = false, "a path for an uncompressed server message (returning at "+c.P.Pos(p.Ret.Pos())+") streams through NextWriter: the message may be split into several frames, and NewPreparedMessage's payload snapshot (tail of the rendered bytes) would contain frame headers"
 			}
+			for _, name := range []string{"(*messageWriter).Write", "(*messageWriter).WriteString", "(*messageWriter).ReadFrom"} {
+				if callsStatic(ev, c.fn(name)) {
+					ok, why = false, "a path for an uncompressed server message (returning at "+c.P.Pos(p.Ret.Pos())+") feeds the payload through "+name+", which flushes a frame whenever the write buffer fills: payloads larger than the buffer are split into several frames, and NewPreparedMessage's payload snapshot (tail of the rendered bytes) would contain frame headers"
+				}
+			}
 			if callsStatic(ev, flush) && len(ev.Args) == 3 {
 				flushes++
 				if b, isB := ev.Args[1].BoolVal(); !isB || !b {
